@@ -481,6 +481,20 @@ def lemma_axiom(world, ex, lc):
     post = [ex.S.eval_bool(t, cx) for _, t in lc.ensures_l]
     pats = [app for _, _, app in st.apps]
     body = z3.Implies(z3.And(pre + cx.facts) if pre or cx.facts else z3.BoolVal(True), z3.And(post))
+    used = set()
+    stack_, seen_ = [body], set()
+    while stack_:
+        x_ = stack_.pop()
+        if x_.get_id() in seen_:
+            continue
+        seen_.add(x_.get_id())
+        if z3.is_quantifier(x_):
+            stack_.append(x_.body())
+            continue
+        if z3.is_const(x_) and x_.decl().kind() == z3.Z3_OP_UNINTERPRETED:
+            used.add(x_.get_id())
+        stack_.extend(x_.children())
+    bound = [b_ for b_ in bound if b_.get_id() in used]      # a bound variable that does not occur (the epoch of heap-independent lemmas) makes the pattern invalid
     if pats:
         # one multi-pattern of all applications that mention a bound variable
         return z3.ForAll(bound, body, patterns=[z3.MultiPattern(*pats)] if len(pats) > 1 else [pats[0]])
